@@ -209,10 +209,15 @@ class SimReadFile(object):
             self._lines += 1
         return line
 
-    def readlines(self, *a):
+    def readlines(self, hint=-1):
+        # as io.IOBase.readlines: with a positive hint, stop once the lines read so far total that many characters
         out = []
+        total = 0
         for line in self:
             out.append(line)
+            total += len(line)
+            if hint is not None and hint > 0 and total >= hint:
+                break
         return out
 
     def read(self, n=-1):
